@@ -10,6 +10,32 @@ TRUST = ("z3 5.1.0 (thorough tier cross-checks every decided query with cvc5 1.4
          "semantics of the kernels; the stubs listed in the evidence file")
 
 CHECKS = {
+    "C06": dict(
+        text="The REAL Runner.__init__ (compatibility.update, eko Atlas, SF.load -> real ESF) and the real Combiner run on symbolic "
+             "masses, threshold ratios and Q2 with np.digitize replaced by its documented meaning; on every feasible path z3 proves "
+             "nf == 3 + #{(m k)^2 <= Q2} (ZM-VFNS, equality included), nf == NfFF at every Q2 for FFNS/FFN0/FONLL-*, that the "
+             "scale-variation manager is handed the same nf and that kernel lists depend on thresholds only through nf. CrossHair "
+             "confirms over all paths for an UNBOUNDED int NfFF that update_fns yields clamp(NfFF-3,0,3) zero thresholds followed "
+             "by inf ones with the documented massless flags; unknown schemes raise ValueError.",
+        note=TRUST + "; CrossHair 0.0.110 for update_fns; reals have no ulp: the boundary convention at equality is covered; "
+             "unordered matching scales (np.digitize raises) are outside.",
+        technique="symbolic execution of the real Runner/Combiner (z3 proxies, all paths) + CrossHair on update_fns",
+        engine="symex+crosshair",
+        design="§4 C06",
+    ),
+    "C20": dict(
+        text="CrossHair confirms over all paths (symbolic ints/bools/enum indices, one harness per option group) that "
+             "compatibility.update leaves the caller's dicts and nested objects untouched, returns new objects with the documented "
+             "content, is idempotent, and that unknown targets raise ValueError without side effects. The real Runner.__init__ + "
+             "get_result run on cards with symbolic masses/thresholds/kinematics over all feasible paths: a deep identity snapshot "
+             "of the cards is unchanged after construction, repeated construction and get_result; the output echoes the given "
+             "cards, grid, pids and projectilePID.",
+        note=TRUST + "; CrossHair 0.0.110; floats concrete in the CrossHair harnesses; numerics stubbed to zeros in the runner part; "
+             "mutation by eko/rich internals outside.",
+        technique="CrossHair symbolic execution of compatibility.update + symbolic execution of the real Runner with identity snapshots",
+        engine="crosshair+symex",
+        design="§4 C20",
+    ),
     "C05": dict(
         text="Mellin-scalar operator model: ScaleVariations.operators is pre-populated with 1x1 symbolic matrices (composite labels "
              "= the products they name) so the real compute_raw skips the quadrature; the real ScaleVariations.*, "
